@@ -113,6 +113,55 @@ let key_case f b =
   List.iter (print_kobs b) obs;
   finish b e
 
+(* ---- long-wait tables of db.go (model coq/Queue/LongWait.v; format: harness/queue/inj/server/zz_verif_longwait.go) ---- *)
+let gop_of_string s =
+  let a = rest s in
+  let two () =
+    match String.index_opt a '.' with
+    | None -> failwith ("bad op " ^ s)
+    | Some j -> (z_of_int (int_of_string (String.sub a 0 j)),
+                 n_of_int (int_of_string (String.sub a (j + 1) (String.length a - j - 1)))) in
+  let t () = z_of_int (int_of_string a) in
+  match s.[0] with
+  | 'N' -> GInstall (t ())
+  | 'A' -> let (t, x) = two () in GAdd (t, x)
+  | 'X' -> let (t, x) = two () in GRemove (t, x)
+  | 'R' -> let (t, x) = two () in GRawRemove (t, x)
+  | 'S' -> GRestructure (t ())
+  | 'p' -> GPop (t ()) | 'n' -> GLen (t ()) | 'C' -> GConsume (t ())
+  | 'f' -> GFreeLen | 'F' -> GFreePop
+  | 'w' -> GIndex (n_of_int (int_of_string a))
+  | 'm' -> GKeys
+  | 'd' -> GDump (t ())
+  | _ -> failwith ("bad op " ^ s)
+
+let print_gobs b = function
+  | GUnit -> Buffer.add_string b " ok"
+  | GUnitS -> Buffer.add_string b " ok+S"
+  | GSkip -> Buffer.add_string b " skip"
+  | GVal None -> Buffer.add_string b " nil"
+  | GVal (Some v) -> Buffer.add_string b (" v" ^ string_of_int (int_of_n v))
+  | GLens (n, c, f) ->
+    Buffer.add_string b (" n" ^ string_of_int (int_of_z n) ^ "/" ^ string_of_int (int_of_z c) ^ "/" ^ string_of_int (int_of_z f))
+  | GList l -> Buffer.add_string b (" c[" ^ ns l ^ "]")
+  | GInt n -> Buffer.add_string b (" n" ^ string_of_int (int_of_z n))
+  | GBool true -> Buffer.add_string b " ok"
+  | GBool false -> Buffer.add_string b " nil"
+  | GIdx i -> Buffer.add_string b (" w" ^ string_of_int (int_of_z i))
+  | GKeyList l -> Buffer.add_string b (" m[" ^ zs l ^ "]")
+  | GDumpObs (d, t, c, f) ->
+    Buffer.add_string b (" d{" ^ zs d.d_ints ^ ";" ^ zs d.d_sizes ^ ";" ^ zs d.d_lens ^ ";"
+                         ^ string_of_int (int_of_z d.d_halias) ^ ";" ^ string_of_int (int_of_z d.d_talias) ^ ";"
+                         ^ string_of_int (int_of_z t) ^ ";" ^ string_of_int (int_of_z c) ^ ";" ^ string_of_int (int_of_z f) ^ "}")
+
+let long_case f b =
+  let zi i = z_of_int (int_of_string f.(i)) in
+  (* f.(2) = kind T|E: the two tables run the same (textually identical) code; the model has one *)
+  let ops = List.map gop_of_string (Array.to_list (Array.sub f 7 (Array.length f - 7))) in
+  let (obs, e) = run_long (zi 3) (zi 4) (zi 5) (zi 6) ops in
+  List.iter (print_gobs b) obs;
+  finish b e
+
 let () =
   let b = Buffer.create 65536 in
   (try
@@ -129,6 +178,7 @@ let () =
             let ((obs, e), _) = run_new (zi 2) (zi 3) (zi 4) ops in
             List.iter (print_obs b) obs;
             finish b e
+          | "G" -> long_case f b
           | _ -> key_case f b);
          Buffer.add_char b '\n';
          print_string (Buffer.contents b)
